@@ -205,7 +205,50 @@ def analyzer_histories():
     f = emulator.Analyzer(c).analyze(lw.State([1, 0]))
     if not np.allclose(r3.array, f.array, atol=1e-12) or abs(r3.performance - f.performance) > 1e-12:
         fails.append("after editing the circuit the long-lived analyzer differs from a fresh one")
+    # step sequences on a long-lived analyzer (in-place edits, loss added/removed, circuit reassigned, post-selection changed)
+    def lossless():
+        cc = lw.Circuit(3)
+        cc.add(lw.Unitary(U(3, 1)), 0)
+        return cc
+
+    def lossy():
+        cc = lossless()
+        cc.loss(1, 0.4)
+        cc.bs(0, loss=0.2)
+        return cc
+    steps = {"edit": lambda a: a.circuit.ps(0, 0.7), "add-loss": lambda a: a.circuit.loss(0, 0.3), "assign-lossy": lambda a: setattr(a, "circuit", lossy()),
+             "assign-lossless": lambda a: setattr(a, "circuit", lossless()), "ps-rule": lambda a: setattr(a, "post_selection", _ps())}
+    for seq in [(s_,) for s_ in steps] + list(itertools.permutations(steps, 2)):
+        if "herald" in seq and seq[0] != "herald" and seq[-1] != "herald":
+            continue
+        a = emulator.Analyzer(lossless())
+        n_in = 3
+        try:
+            a.analyze([lw.State([1, 1, 0]), lw.State([0, 1, 1])])
+            for st in seq:
+                steps[st](a)
+                if st == "herald":
+                    n_in = 2
+                ins = [lw.State([1, 1, 0][:n_in]), lw.State([0, 1, 1][:n_in])]
+                got = a.analyze(ins)
+            fr = emulator.Analyzer(a.circuit.copy())
+            fr.post_selection = a.post_selection
+            want = fr.analyze(ins)
+        except Exception as e:  # noqa: BLE001
+            fails.append(f"analyzer history {list(seq)} raised {type(e).__name__}: {e}")
+            continue
+        go = [tuple(o.s) for o in got.outputs]
+        wo = [tuple(o.s) for o in want.outputs]
+        if go != wo or not np.allclose(got.array, want.array, atol=1e-12) or abs(got.performance - want.performance) > 1e-12:
+            fails.append(f"analyzer history {list(seq)}: long-lived analyzer reports {len(go)} outputs / performance {got.performance:.6f}, a fresh one {len(wo)} / {want.performance:.6f}")
     return fails
+
+
+def _ps():
+    import lightworks as lw
+    p = lw.PostSelection()
+    p.add(0, (0, 1))
+    return p
 
 
 def unit(tier="quick", seed=0, kind="sampler", shard=0, nshards=1):
